@@ -342,7 +342,8 @@ pub fn limit_versions() -> Vec<String> {
             out.push(s);
         }
     }
-    let bigs = ["900719925474098", "900719925474099", "900719925474100", "18446744073709551615", "18446744073709551616", "1000000000000000000000000000000"];
+    let bigs = ["900719925474098", "900719925474099", "900719925474100", "18446744073709551615", "18446744073709551616", "1000000000000000000000000000000",
+        "4294967295", "4294967296", "9007199254740992", "9223372036854775808", "18446744073709551617", "18446744073709551619", "55340232221128654855", "100000000000000000000"];
     for b in bigs {
         for pos in 0..3 {
             for tail in ["", "-a", "+b", "-1.a+2"] {
@@ -507,6 +508,17 @@ pub fn run_c12(tier: &str, sink: &Sink) -> BOut {
                         check_c12_value(&v, "built", sink);
                         combos += 1;
                     }
+                }
+            }
+        }
+    }
+    // mid-range numbers (type edges) with a few tag/build shapes
+    for n in [9u64, 10, 255, 256, 65536, 4294967295, 4294967296, 281474976710656] {
+        for (a, b, c2) in [(n, n, n), (n, 0, 1), (0, n, 1), (1, 0, n)] {
+            for pre in ["", "a", "10.a", "0"] {
+                for build in ["", "b.1", "001"] {
+                    check_c12_value(&verb(a, b, c2, pre, build), "built", sink);
+                    combos += 1;
                 }
             }
         }
